@@ -358,6 +358,9 @@ def gen_heatmap(rng, tier, auto=False):
             opts["vmax"] = vals[-2] / 4
     if rng.random() < 0.15:
         opts["colorbar"] = False
+    if extra and "vmin" not in opts and rng.random() < 0.3:
+        # the documented default spelled out: every panel is still coloured on the one scale of the colour bar
+        opts["vmin"], opts["vmax"] = None, None
     return {"kind": "heatmap", "auto": auto, "ds": raw, "x": "x", "y": "y", "z": "h", "c": None, "y_err": None,
             "x_err": None, "row": ("r" if "r" in extra else None), "col": ("k" if "k" in extra else None),
             "opts": opts}
